@@ -2,8 +2,9 @@ from pyvc.api import Registry
 
 
 def build_registry():
-    from . import sort_c
+    from . import sort_c, conversion_c
     reg = Registry()
-    for m in (sort_c,):
-        m.register(reg)
+    sort_c.register(reg)
+    conversion_c.register(reg)
+    conversion_c.register_to_stable(reg)
     return reg
